@@ -167,9 +167,9 @@ Fixpoint dsl_union_collect (st : dsl_store) (args : list dsl_val) : option (list
 Inductive dsl_lres := LrOk (xs : list dsl_val) | LrErr | LrAbort (a : dsl_abort).
 
 (* ScriptUtils::Intersection, the loop over arguments 2..n.  [arr1] is the running left operand, [result] the array that
-   is returned when a later argument is null, [aliased] = arr1 and result are the SAME object (from the third argument
-   on): result->Resize(max(len arr1, len arr2)) then pads arr1 itself with nulls when arr2 is longer *)
-Fixpoint dsl_isect_args (st : dsl_store) (rest : list dsl_val) (arr1 result : list dsl_val) (aliased : bool) : dsl_lres :=
+   is returned when a later argument is null.  Every step writes into a fresh array (fix b5e2da1; before it the running
+   result doubled as the left input and was padded with nulls when the next array was longer). *)
+Fixpoint dsl_isect_args (st : dsl_store) (rest : list dsl_val) (arr1 result : list dsl_val) : dsl_lres :=
   match rest with
   | [] => LrOk result
   | a :: t =>
@@ -183,10 +183,9 @@ Fixpoint dsl_isect_args (st : dsl_store) (rest : list dsl_val) (arr1 result : li
               match dsl_sorted ys with
               | None => if dsl_mixed_throws ys then LrErr else LrAbort DaDomain
               | Some s2 =>
-                  if aliased && Nat.ltb (List.length s1) (List.length s2) then LrAbort DaIsectAlias
-                  else if negb (Nat.eqb (List.length s1) 0) && negb (Nat.eqb (List.length s2) 0) && negb (dsl_homog (s1 ++ s2)) then
+                  if negb (Nat.eqb (List.length s1) 0) && negb (Nat.eqb (List.length s2) 0) && negb (dsl_homog (s1 ++ s2)) then
                     (if dsl_mixed_throws (s1 ++ s2) then LrErr else LrAbort DaDomain)
-                  else let r := dsl_set_isect (S (List.length s1 + List.length s2)) s1 s2 in dsl_isect_args st t r r true
+                  else let r := dsl_set_isect (S (List.length s1 + List.length s2)) s1 s2 in dsl_isect_args st t r r
               end
           end
       end
@@ -411,7 +410,7 @@ Definition dsl_native_simple (st : dsl_store) (n : dsl_native) (self : dsl_val) 
                 | AcErr => dsl_err DkType st
                 | AcNull => dsl_new_arr st []
                 | AcArr xs =>
-                    match dsl_isect_args st rest xs [] false with
+                    match dsl_isect_args st rest xs [] with
                     | LrOk r => dsl_new_arr st r
                     | LrErr => dsl_err DkType st
                     | LrAbort r => (DrAbort r, st)
@@ -672,8 +671,8 @@ Fixpoint dsl_eval_closed (ev : dsl_evaluator) (fr : dsl_frame) (st : dsl_store) 
 
 (* ---------------------------------------------------------------- variables and `using` imports *)
 (* VMOps::FindVarImportRef over the imports added by `using` (textual order); the built-in imports System, Types follow.
-   The result code of an import expression is ignored; its value is converted to Object::Ptr: a scalar throws, null gives a
-   null pointer that is dereferenced (F-C15-f). *)
+   The result code of an import expression is ignored; its value is converted to Object::Ptr: a scalar throws, null is a
+   script error as well (fix 9625736; before it the null pointer was dereferenced). *)
 Inductive dsl_impres := IrFound (parent : dsl_val) (st : dsl_store) | IrNone (st : dsl_store) | IrOut (o : dsl_out).
 
 Fixpoint dsl_find_import (ev : dsl_evaluator) (fr : dsl_frame) (st : dsl_store) (imps : list dsl_expr) (x : string) : dsl_impres :=
@@ -683,7 +682,7 @@ Fixpoint dsl_find_import (ev : dsl_evaluator) (fr : dsl_frame) (st : dsl_store) 
       let '(r, st1) := ev fr st i in
       let go (v : dsl_val) : dsl_impres :=
           match v with
-          | DvEmpty => IrOut (DrAbort DaNullImport, st1)
+          | DvEmpty => IrOut (DrErr DkType, st1)
           | DvFun _ | DvNat _ => IrOut (DrAbort DaDomain, st1)
           | DvNum _ _ | DvBool _ | DvStr _ => IrOut (DrErr DkType, st1)
           | _ => if dsl_has_own st1 v x then IrFound v st1 else dsl_find_import ev fr st1 t x
@@ -1056,8 +1055,6 @@ Definition dsl_show_res (o : dsl_out) : string :=
   | DrAbort DaFuel => "abort:fuel"
   | DrAbort DaDomain => "abort:domain"
   | DrAbort DaCycle => "abort:cycle"
-  | DrAbort DaNullImport => "abort:nullimport"
-  | DrAbort DaIsectAlias => "abort:isectalias"
   end.
 
 Definition dsl_observe (o : dsl_out) : list string :=
